@@ -67,3 +67,21 @@ def lowrank_cp(shape, rank, off=0, nonneg=False, integer=False):
             comp = np.multiply.outer(comp, f[:, r])
         t = t + comp
     return t, facs
+
+
+def relayout(arr, k):
+    """Same logical array in one of four memory layouts (k mod 4): C-contiguous, Fortran-ordered, negative strides on every
+    axis, strided view into a larger buffer.  Values, dtype and shape are unchanged - only the strides differ."""
+    arr = np.asarray(arr)
+    k = int(k) % 4
+    if k == 0 or arr.ndim == 0 or arr.size == 0:
+        return np.ascontiguousarray(arr)
+    if k == 1:
+        return np.asfortranarray(arr)
+    if k == 2:
+        rev = tuple(slice(None, None, -1) for _ in arr.shape)
+        return np.ascontiguousarray(arr[rev])[rev]
+    big = np.zeros(tuple(2 * s + 1 for s in arr.shape), dtype=arr.dtype)
+    sl = tuple(slice(1, 2 * s + 1, 2) for s in arr.shape)
+    big[sl] = arr
+    return big[sl]
